@@ -1,7 +1,4 @@
 import GontainerModel.Props.C10
-#print axioms GM.C10.codegen_file
-#print axioms GM.C10.compile_error_nonempty
-#print axioms GM.C10.core_file
 #print axioms GM.C10.exit_zero_iff_written
 #print axioms GM.C10.failure_leaves_output
 #print axioms GM.C10.exit_is_0_or_1
